@@ -204,13 +204,14 @@ type execution struct {
 	// reference lock model: names of live processes whose open returned success and that did not close
 	holding map[string]bool
 	// pids of processes that are dead and reaped (name by pid), for classifying lock contents
-	deadPids  map[int]string
-	res       *Result
-	stepNo    int
-	probed    bool
-	initLock  string // lock situation when the exploration proper started (step mode): absent|stale
-	retry     bool
-	clobbered map[string]bool
+	deadPids   map[int]string
+	res        *Result
+	stepNo     int
+	probed     bool
+	initLock   string // lock situation when the exploration proper started (step mode): absent|stale
+	retry      bool
+	dataBroken bool // the prepared repository holds a bug that cannot be read: opens fail for that reason
+	clobbered  map[string]bool
 }
 
 var execSeq struct {
@@ -768,6 +769,8 @@ func (x *execution) apply(event string, prefix bool) {
 		x.evStep(event, x.holder(arg), "go")
 	case "probe":
 		x.evProbe(event)
+	case "prep":
+		x.evPrep(event, arg)
 	default:
 		panic(herr("unknown event %q", event))
 	}
@@ -828,6 +831,15 @@ func (x *execution) openOutcome(event string, h *holder, m holderMsg, q string, 
 				x.retry = true // the dead process's pid was reused by an unrelated process
 				return
 			}
+		}
+		if x.dataBroken && !lockWord.MatchString(m.Err) && lockKind(lockBefore) == "absent" {
+			// the prepared repository cannot be read: the open fails for a reason that is not the lock, which
+			// the statement does not exclude. What it still asks: the failed open keeps no lock.
+			if lc := x.lockClass(); lc == "live:"+h.name {
+				x.report("lock-left-after-failed-open", who+"|"+x.ctx(),
+					fmt.Sprintf("the open of %s (pid %d) failed (%s) and left the lock file naming it: nobody can open the cache while this process lives", h.name, h.pid, m.Err))
+			}
+			return
 		}
 		x.report("open-fails-without-live-holder", who+",lock-before="+lockKind(lockBefore)+"|"+x.ctx(),
 			fmt.Sprintf("no live process holds the cache (lock file before: %s) but %q failed: %s", x.pidsText(lockBefore), event, m.Err))
@@ -1075,6 +1087,43 @@ func (x *execution) evCLI(event, name string, otherUID bool) {
 			fmt.Sprintf("git-bug %s exited with status %d and left the lock file (%s) behind; stderr: %s",
 				strings.Join(args, " "), code, x.pidsText(lc), firstLine(stderr)))
 	}
+}
+
+// evPrep puts the repository into a situation in which commands fail at a particular stage (only used
+// in prefixes; done with stock git and plain file operations, never through git-bug).
+func (x *execution) evPrep(event, what string) {
+	git := func(args ...string) string {
+		cmd := exec.Command("git", args...)
+		cmd.Dir = x.repo
+		cmd.Env = x.childEnv
+		out, err := cmd.CombinedOutput()
+		if err != nil {
+			panic(herr("prep %s: git %v: %v: %s", what, args, err, out))
+		}
+		return strings.TrimSpace(string(out))
+	}
+	switch what {
+	case "webui-open-invalid":
+		// the documented configuration key of the web UI, with a value that is not a boolean
+		git("config", "git-bug.webui.open", "notabool")
+	case "bug-unreadable-cache-gone":
+		// a local bug whose ref names a commit without git-bug data, and no cache files: the next
+		// command has to build the cache (after taking the lock) and the build fails
+		refs := strings.Fields(git("for-each-ref", "--format=%(refname)", "refs/bugs"))
+		if len(refs) == 0 {
+			panic(herr("prep %s: no bug in the repository", what))
+		}
+		tree := git("mktree")
+		commit := git("-c", "user.name=x", "-c", "user.email=x@example.org", "commit-tree", "-m", "not a bug", tree)
+		git("update-ref", refs[0], commit)
+		if err := os.RemoveAll(filepath.Join(x.repo, ".git", "git-bug", "cache")); err != nil {
+			panic(herr("prep %s: %v", what, err))
+		}
+		x.dataBroken = true
+	default:
+		panic(herr("unknown preparation %q", what))
+	}
+	x.obs(event, "done", "")
 }
 
 func firstLine(s string) string {
